@@ -1,10 +1,15 @@
-"""Stack-effect summaries of VM handlers by an abstract counting interpretation of the
-handler's ast (depth domain): `effect(handler, operands)` -> (needs, net) where `needs`
-is the stack depth required at entry and `net` the change, or DYNAMIC when the effect
-depends on evaluated sub-scripts or stack contents.  Nothing is executed: the walker
-counts Stack.get / put / peek events, binds tape reads to the given operand values,
-iterates `range(...)` loops whose bound is an operand expression, and inlines calls to
-other handlers."""
+"""Stack-effect summaries of VM handlers by an abstract counting interpretation of the handler's
+ast (depth domain, path sets).  `effect(handler, operands)` -> (needs, net) where `needs` is the
+stack depth required at entry and `net` the change; DYNAMIC when non-raising paths disagree or the
+effect depends on evaluated sub-scripts / stack or cache contents; RAISES when no path completes.
+
+Nothing is executed.  The walker keeps a *set* of abstract states (depth, low-water mark, an
+environment of small abstract values, the remaining operand stream).  A branch whose condition is
+known from the operand values takes one side; an unknown condition forks.  `range(..)` loops whose
+bound is known are unrolled; loops with an unknown trip count must be stack-neutral.  Calls to other
+handlers are inlined on the shared or the freshly built operand tape.  Guard helpers (discovered from
+errors.py) kill the path when their condition is known false and are otherwise ignored, like `raise`.
+"""
 from __future__ import annotations
 import ast
 from .report import AnalysisError
@@ -12,64 +17,103 @@ from .summary import World
 from .model import dotted
 
 DYNAMIC = 'dynamic'
+RAISES = 'raises'
+MAX_STATES = 512
+MAX_UNROLL = 300
 
 
 class _Dyn(Exception):
     pass
 
 
-class _Raise(Exception):
-    pass
+class _Die(Exception):
+    """This path ends in an error."""
 
 
-class _Return(Exception):
-    pass
+class State:
+    __slots__ = ('d', 'mn', 'env', 'ops')
 
+    def __init__(self, d=0, mn=0, env=None, ops=()):
+        self.d = d
+        self.mn = mn
+        self.env = dict(env or {})
+        self.ops = tuple(ops)
 
-class _Counter:
-    def __init__(self):
-        self.d = 0
-        self.min = 0
+    def copy(self):
+        return State(self.d, self.mn, self.env, self.ops)
 
+    def key(self):
+        return (self.d, self.mn, tuple(sorted(self.env.items(), key=lambda kv: kv[0])), self.ops)
+
+    # events
     def get(self, n=1):
         self.d -= n
-        self.min = min(self.min, self.d)
+        self.mn = min(self.mn, self.d)
 
     def peek(self, depth=1):
-        self.min = min(self.min, self.d - depth)
+        self.mn = min(self.mn, self.d - depth)
 
     def put(self, n=1):
         self.d += n
 
-    def snapshot(self):
-        return (self.d, self.min)
+    def next_operand(self):
+        if not self.ops:
+            return None
+        v = self.ops[0]
+        self.ops = self.ops[1:]
+        return v
 
-    def restore(self, s):
-        self.d, self.min = s
+
+def _dedup(states):
+    seen, out = set(), []
+    for s in states:
+        k = s.key()
+        if k not in seen:
+            seen.add(k)
+            out.append(s)
+    if len(out) > MAX_STATES:
+        raise _Dyn()
+    return out
+
+
+class _Ctx:
+    __slots__ = ('fi', 'tape', 'stack', 'cache', 'depth')
+
+    def __init__(self, fi, depth):
+        self.fi = fi
+        self.tape, self.stack, self.cache = fi.params[:3]
+        self.depth = depth
 
 
 class StackFx:
     def __init__(self, w: World):
         self.w = w
         self._memo = {}
+        self.guards = set(w.exc.guards) if hasattr(w, 'exc') else {'sert', 'vert', 'tert', 'yert'}
 
-    def effect(self, hname: str, operands: tuple[int, ...] = ()):
+    # ------------------------------------------------------------------
+    def effect(self, hname: str, operands: tuple = ()):
         key = (hname, tuple(operands))
         if key in self._memo:
             return self._memo[key]
         fi = self.w.handlers[hname]
-        c = _Counter()
         try:
-            self._run(fi, list(operands), c, depth=0)
-            res = (-c.min, c.d)
+            outs = self._run_handler(fi, State(ops=tuple(operands)), 0)
+            ends = [s for k, s in outs if k in ('fall', 'return')]
+            if not ends:
+                res = RAISES
+            elif len({s.d for s in ends}) != 1:
+                res = DYNAMIC
+            else:
+                res = (max(-s.mn for s in ends), ends[0].d)
         except _Dyn:
+            res = DYNAMIC
+        except RecursionError:
             res = DYNAMIC
         self._memo[key] = res
         return res
 
     def operand_count(self, hname: str) -> int:
-        """Number of tape reads the handler performs on its own tape (constant-size ones only
-        count as operands; a length-prefixed read counts as one operand with its prefix)."""
         from .summary import tape_reads
         fi = self.w.handlers[hname]
         seqs = tape_reads(self.w, fi)
@@ -78,371 +122,706 @@ class StackFx:
         return len(seqs[0])
 
     # ------------------------------------------------------------------
-    def _run(self, fi, operands, c: _Counter, depth: int):
+    def _run_handler(self, fi, st: State, depth: int):
         if depth > 6:
             raise _Dyn()
-        tape, stack, cache = fi.params[:3]
-        env = {}        # name -> int | ('len', n) for lists of known length | ('tape', [operands])
-        ops = list(operands)
-        st = {'ops': ops, 'tape': tape, 'stack': stack, 'fi': fi, 'depth': depth}
-        try:
-            self._block(fi.node.body, env, c, st)
-        except _Return:
-            pass
+        cx = _Ctx(fi, depth)
+        body = fi.node.body
+        entry = State(st.d, st.mn, {}, st.ops)
+        return self._block(body, [entry], cx)
 
-    def _block(self, stmts, env, c, st):
+    def _block(self, stmts, states, cx):
+        """-> list of (kind, State); kind in fall / return / break / continue."""
+        outs = []
+        cur = list(states)
         for s in stmts:
-            self._stmt(s, env, c, st)
-
-    def _next_operand(self, st, size_expr, env):
-        """Value of the next tape read (one operand per read; variable reads consume the bytes)."""
-        ops = st['ops']
-        if not ops:
-            return None
-        return ops.pop(0)
-
-    def _eval_int(self, e, env, c, st):
-        """Evaluate an integer expression over operands; performs stack events inside it."""
-        if isinstance(e, ast.Constant) and isinstance(e.value, int):
-            return e.value
-        if isinstance(e, ast.Name):
-            v = env.get(e.id)
-            return v if isinstance(v, int) else None
-        if isinstance(e, ast.BinOp):
-            l, r = self._eval_int(e.left, env, c, st), self._eval_int(e.right, env, c, st)
-            if l is None or r is None:
-                return None
-            if isinstance(e.op, ast.Add):
-                return l + r
-            if isinstance(e.op, ast.Sub):
-                return l - r
-            if isinstance(e.op, ast.Mult):
-                return l * r
-            return None
-        if isinstance(e, ast.Call):
-            nm = dotted(e.func) or ''
-            if nm in ('int.from_bytes', 'bytes_to_int') and e.args:
-                return self._eval_bytes(e.args[0], env, c, st)
-            if nm == 'len' and e.args:
-                v = self._value(e.args[0], env, c, st)
-                if isinstance(v, tuple) and v[0] == 'len':
-                    return v[1]
-                if nm == 'len' and isinstance(e.args[0], ast.Name) and e.args[0].id == st['stack']:
-                    return None
-                return None
-            self._expr(e, env, c, st)
-            return None
-        if isinstance(e, ast.Subscript) and isinstance(e.slice, ast.Constant) and e.slice.value == 0:
-            return self._eval_bytes(e.value, env, c, st)
-        self._expr(e, env, c, st)
-        return None
-
-    def _eval_bytes(self, e, env, c, st):
-        """Integer value of a bytes expression that is a tape read (operand) - else None."""
-        if isinstance(e, ast.Call) and isinstance(e.func, ast.Attribute) and e.func.attr == 'read' and \
-                isinstance(e.func.value, ast.Name) and e.func.value.id == st['tape']:
-            return self._next_operand(st, e.args[0] if e.args else None, env)
-        if isinstance(e, ast.Name):
-            v = env.get(e.id)
-            if isinstance(v, tuple) and v[0] == 'operand':
-                return v[1]
-            return None
-        self._expr(e, env, c, st)
-        return None
-
-    def _value(self, e, env, c, st):
-        """Abstract value: int, ('len', n), ('operand', v), ('tape', [ops]) or None; performs events."""
-        if isinstance(e, ast.Name):
-            return env.get(e.id)
-        if isinstance(e, ast.Call):
-            nm = dotted(e.func) or ''
-            f = e.func
-            if isinstance(f, ast.Attribute) and f.attr == 'read' and isinstance(f.value, ast.Name) and \
-                    f.value.id == st['tape']:
-                v = self._next_operand(st, e.args[0] if e.args else None, env)
-                return ('operand', v)
-            if nm == 'Tape' and e.args:
-                inner = e.args[0]
-                if isinstance(inner, ast.Constant) and isinstance(inner.value, bytes):
-                    return ('tape', list(inner.value))
-                v = self._value(inner, env, c, st)
-                if isinstance(v, tuple) and v[0] == 'operand':
-                    return ('tape', [v[1]])
-                if isinstance(inner, ast.Call) and isinstance(inner.func, ast.Attribute) and inner.func.attr == 'to_bytes':
-                    iv = self._eval_int(inner.func.value, env, c, st)
-                    return ('tape', [iv])
-                return ('tape', [None])
-            if nm in ('int.from_bytes', 'bytes_to_int'):
-                return self._eval_int(e, env, c, st)
-        if isinstance(e, (ast.ListComp,)):
-            g = e.generators[0]
-            n = self._iter_len(g.iter, env, c, st)
-            if n is None:
-                raise _Dyn()
-            for _ in range(n):
-                self._expr(e.elt, env, c, st)
-            return ('len', n)
-        if isinstance(e, (ast.List, ast.Tuple)):
-            for x in e.elts:
-                self._expr(x, env, c, st)
-            return ('len', len(e.elts))
-        iv = self._eval_int(e, env, c, st) if isinstance(e, (ast.BinOp, ast.Constant, ast.Subscript)) else None
-        if iv is not None:
-            return iv
-        if not isinstance(e, (ast.BinOp, ast.Constant, ast.Subscript)):
-            self._expr(e, env, c, st)
-        return None
-
-    def _iter_len(self, it, env, c, st):
-        if isinstance(it, ast.Call) and dotted(it.func) == 'range' and it.args:
-            if len(it.args) == 1:
-                v = self._eval_int(it.args[0], env, c, st)
-                return None if v is None else max(0, v)
-            a = self._eval_int(it.args[0], env, c, st)
-            b = self._eval_int(it.args[1], env, c, st)
-            if a is None or b is None:
-                return None
-            return max(0, b - a)
-        if isinstance(it, ast.Name):
-            v = env.get(it.id)
-            if isinstance(v, tuple) and v[0] == 'len':
-                return v[1]
-        return None
-
-    def _expr(self, e, env, c, st):
-        """Walk an expression for stack events (evaluation order: inner first)."""
-        if e is None:
-            return
-        if isinstance(e, ast.Call):
-            f = e.func
-            nm = dotted(f) or ''
-            if isinstance(f, ast.Attribute) and isinstance(f.value, ast.Name) and f.value.id == st['stack']:
-                for a in e.args:
-                    self._expr(a, env, c, st)
-                if f.attr == 'get':
-                    c.get()
-                elif f.attr == 'put':
-                    c.put()
-                elif f.attr == 'peek':
-                    idx = 0
-                    if e.args and isinstance(e.args[0], ast.Constant):
-                        idx = e.args[0].value
-                    c.peek(idx + 1)
-                elif f.attr in ('list', 'size', 'empty', '__len__'):
+            nxt = []
+            for st in cur:
+                try:
+                    for k, s2 in self._stmt(s, st, cx):
+                        if k == 'fall':
+                            nxt.append(s2)
+                        else:
+                            outs.append((k, s2))
+                except _Die:
                     pass
-                else:
+            cur = _dedup(nxt)
+            if not cur:
+                break
+        return outs + [('fall', s) for s in cur]
+
+    # ------------------------------------------------------------------ expressions
+    def _is_own_stack(self, e, cx):
+        return isinstance(e, ast.Name) and e.id == cx.stack
+
+    def _mentions_vm(self, e, cx) -> bool:
+        """Could evaluating e change the own stack's depth or consume operands?  (References to the own
+        stack, reads of the own tape, calls of handlers / run_tape; plain `tape.flags[..]` loads do not.)"""
+        for n in ast.walk(e):
+            if isinstance(n, ast.Name) and n.id == cx.stack:
+                return True
+            if isinstance(n, ast.Call):
+                f = n.func
+                if isinstance(f, ast.Attribute) and isinstance(f.value, ast.Name) and f.value.id == cx.tape and \
+                        f.attr in ('read', 'move_pointer'):
+                    return True
+                if isinstance(f, ast.Name) and (f.id == 'run_tape' or f.id in self.w.handlers):
+                    return True
+        return False
+
+    def ev(self, e, st: State, cx):
+        """Abstract value of e (int | ('len',n) | ('operand',v) | ('tape',ops) | ('dict',pairs) | None);
+        performs the stack / operand events of e on st."""
+        if e is None:
+            return None
+        if isinstance(e, ast.Constant):
+            if isinstance(e.value, bool):
+                return int(e.value)
+            if isinstance(e.value, int):
+                return e.value
+            if isinstance(e.value, bytes):
+                return ('operand', int.from_bytes(e.value, 'big') if len(e.value) <= 8 else None, len(e.value))
+            return None
+        if isinstance(e, ast.Name):
+            return st.env.get(e.id)
+        if isinstance(e, ast.BinOp):
+            l, r = self.ev(e.left, st, cx), self.ev(e.right, st, cx)
+            if isinstance(l, int) and isinstance(r, int):
+                try:
+                    if isinstance(e.op, ast.Add):
+                        return l + r
+                    if isinstance(e.op, ast.Sub):
+                        return l - r
+                    if isinstance(e.op, ast.Mult):
+                        return l * r
+                    if isinstance(e.op, ast.BitAnd):
+                        return l & r
+                    if isinstance(e.op, ast.BitOr):
+                        return l | r
+                    if isinstance(e.op, ast.FloorDiv) and r:
+                        return l // r
+                    if isinstance(e.op, ast.Mod) and r:
+                        return l % r
+                    if isinstance(e.op, ast.LShift) and 0 <= r < 64:
+                        return l << r
+                    if isinstance(e.op, ast.RShift) and 0 <= r < 64:
+                        return l >> r
+                except Exception:
+                    return None
+            return None
+        if isinstance(e, ast.UnaryOp):
+            v = self.ev(e.operand, st, cx)
+            if isinstance(e.op, ast.Not):
+                t = self._truth(v)
+                return None if t is None else int(not t)
+            if isinstance(e.op, ast.USub) and isinstance(v, int):
+                return -v
+            return None
+        if isinstance(e, ast.BoolOp):
+            first = self.ev(e.values[0], st, cx)
+            rest_has = any(self._mentions_vm(v, cx) for v in e.values[1:])
+            t = self._truth(first)
+            if rest_has:
+                if t is None:
                     raise _Dyn()
-                return
-            if isinstance(f, ast.Attribute) and isinstance(f.value, ast.Attribute) and \
-                    dotted(f.value) == f"{st['stack']}.deque":
-                # direct storage access: permutation / length reads only (C07.R1 enforces that)
-                for a in e.args:
-                    self._expr(a, env, c, st)
-                return
-            if isinstance(f, ast.Attribute) and f.attr == 'read' and isinstance(f.value, ast.Name) and \
-                    f.value.id == st['tape']:
-                self._next_operand(st, None, env)
-                return
-            if isinstance(f, ast.Name):
-                if f.id == 'run_tape':
-                    raise _Dyn()
-                hc = None
-                fr = self.w.resolve_call(st['fi'], e)
-                if fr is not None and fr.module == 'functions' and fr.name in self.w.handlers and len(e.args) == 3:
-                    hc = self.w.handlers[fr.name]
-                if hc is not None:
-                    # which tape does it get?
-                    ta = e.args[0]
-                    if isinstance(ta, ast.Name) and ta.id == st['tape']:
-                        sub_ops = st['ops']      # shares the operand stream
-                        self._run_shared(hc, sub_ops, c, st['depth'] + 1)
-                    else:
-                        tv = self._value(ta, env, c, st)
-                        ops = list(tv[1]) if isinstance(tv, tuple) and tv[0] == 'tape' else [None]
-                        self._run_shared(hc, ops, c, st['depth'] + 1)
-                    return
-                if f.id in ('run_plugins', 'run_sig_extensions'):
-                    return
-            for a in e.args:
-                self._expr(a, env, c, st)
-            for k in e.keywords:
-                self._expr(k.value, env, c, st)
-            if isinstance(f, ast.Attribute):
-                self._expr(f.value, env, c, st)
-            return
-        if isinstance(e, (ast.ListComp, ast.SetComp, ast.GeneratorExp)):
-            self._value(e, env, c, st) if isinstance(e, ast.ListComp) else self._dyn_if_stack(e, st)
-            return
+                short = (isinstance(e.op, ast.And) and not t) or (isinstance(e.op, ast.Or) and t)
+                if short:
+                    return first
+                val = first
+                for v in e.values[1:]:
+                    val = self.ev(v, st, cx)
+                    tv = self._truth(val)
+                    if tv is None and v is not e.values[-1]:
+                        raise _Dyn()
+                    if tv is not None and ((isinstance(e.op, ast.And) and not tv) or (isinstance(e.op, ast.Or) and tv)):
+                        return val
+                return val
+            vals = [first] + [self.ev(v, st, cx) for v in e.values[1:]]
+            ts = [self._truth(v) for v in vals]
+            if isinstance(e.op, ast.And):
+                if any(t is False for t in ts):
+                    return 0
+                if all(t is True for t in ts):
+                    return 1
+            else:
+                if any(t is True for t in ts):
+                    return 1
+                if all(t is False for t in ts):
+                    return 0
+            return None
+        if isinstance(e, ast.Compare):
+            vals = [self.ev(e.left, st, cx)] + [self.ev(c, st, cx) for c in e.comparators]
+            if len(e.ops) == 1 and all(isinstance(v, int) for v in vals):
+                a, b = vals
+                op = e.ops[0]
+                table = {ast.Lt: a < b, ast.LtE: a <= b, ast.Gt: a > b, ast.GtE: a >= b, ast.Eq: a == b, ast.NotEq: a != b}
+                for k, v in table.items():
+                    if isinstance(op, k):
+                        return int(v)
+            return None
         if isinstance(e, ast.IfExp):
-            self._expr(e.test, env, c, st)
-            s0 = c.snapshot()
-            self._expr(e.body, env, c, st)
-            a = c.snapshot()
-            c.restore(s0)
-            self._expr(e.orelse, env, c, st)
-            b = c.snapshot()
-            if a[0] != b[0]:
+            t = self._truth(self.ev(e.test, st, cx))
+            if t is True:
+                return self.ev(e.body, st, cx)
+            if t is False:
+                return self.ev(e.orelse, st, cx)
+            a, b = st.copy(), st.copy()
+            va, vb = self.ev(e.body, a, cx), self.ev(e.orelse, b, cx)
+            if a.d != b.d or a.ops != b.ops:
                 raise _Dyn()
-            c.restore((a[0], min(a[1], b[1])))
-            return
+            st.d, st.mn, st.ops = a.d, min(a.mn, b.mn), a.ops
+            return va if va == vb else None
+        if isinstance(e, ast.Subscript):
+            base = e.value
+            # stack.deque[...] : a read below the top
+            if isinstance(base, ast.Attribute) and self._is_own_stack(base.value, cx) and base.attr == 'deque':
+                iv = self.ev(e.slice, st, cx) if not isinstance(e.slice, ast.Slice) else None
+                if isinstance(iv, int) and iv < 0:
+                    st.peek(-iv)
+                return None
+            v = self.ev(base, st, cx)
+            if isinstance(e.slice, ast.Slice):
+                for x in (e.slice.lower, e.slice.upper, e.slice.step):
+                    self.ev(x, st, cx)
+                return None
+            iv = self.ev(e.slice, st, cx)
+            if isinstance(v, tuple) and v[0] == 'operand' and iv == 0 and (len(v) < 3 or v[2] == 1 or v[2] is None):
+                return v[1]
+            if isinstance(v, tuple) and v[0] == 'dict':
+                for k, val in v[1]:
+                    if k == iv or (isinstance(e.slice, ast.Constant) and k == e.slice.value):
+                        return val
+            return None
+        if isinstance(e, ast.Attribute):
+            self.ev(e.value, st, cx) if not isinstance(e.value, ast.Name) else None
+            return None
+        if isinstance(e, ast.Dict):
+            pairs = []
+            ok = True
+            for k, v in zip(e.keys, e.values):
+                val = self.ev(v, st, cx)
+                if k is None or not isinstance(k, ast.Constant):
+                    ok = False
+                    if k is not None:
+                        self.ev(k, st, cx)
+                    continue
+                pairs.append((k.value, val))
+            return ('dict', tuple(pairs)) if ok else None
+        if isinstance(e, (ast.List, ast.Tuple, ast.Set)):
+            for x in e.elts:
+                self.ev(x.value if isinstance(x, ast.Starred) else x, st, cx)
+            if any(isinstance(x, ast.Starred) for x in e.elts):
+                return None
+            return ('len', len(e.elts))
+        if isinstance(e, (ast.ListComp, ast.SetComp, ast.GeneratorExp, ast.DictComp)):
+            return self._comp(e, st, cx)
+        if isinstance(e, ast.Call):
+            return self._call(e, st, cx)
+        if isinstance(e, ast.JoinedStr):
+            for v in e.values:
+                if isinstance(v, ast.FormattedValue):
+                    self.ev(v.value, st, cx)
+            return None
+        if isinstance(e, ast.NamedExpr):
+            v = self.ev(e.value, st, cx)
+            if isinstance(e.target, ast.Name):
+                self._bind(e.target.id, v, st)
+            return v
+        if isinstance(e, ast.Starred):
+            return self.ev(e.value, st, cx)
+        if isinstance(e, ast.Lambda):
+            if self._mentions_vm(e, cx):
+                raise _Dyn()
+            return None
         for ch in ast.iter_child_nodes(e):
             if isinstance(ch, ast.expr):
-                self._expr(ch, env, c, st)
+                self.ev(ch, st, cx)
+        return None
 
-    def _dyn_if_stack(self, e, st):
-        for n in ast.walk(e):
-            if isinstance(n, ast.Name) and n.id == st['stack']:
-                raise _Dyn()
+    @staticmethod
+    def _truth(v):
+        if isinstance(v, int):
+            return bool(v)
+        if isinstance(v, tuple) and v[0] == 'len' and isinstance(v[1], int):
+            return v[1] > 0
+        return None
 
-    def _run_shared(self, hc, ops, c, depth):
-        if depth > 6:
+    def _bind(self, name, v, st):
+        if v is None:
+            st.env.pop(name, None)
+        else:
+            st.env[name] = v
+
+    def _comp(self, e, st, cx):
+        g = e.generators[0]
+        n = self._iter_len(g.iter, st, cx)
+        inner = [e.elt] if not isinstance(e, ast.DictComp) else [e.key, e.value]
+        parts = inner + list(g.ifs) + [x for gg in e.generators[1:] for x in [gg.iter] + list(gg.ifs)]
+        touches = any(self._mentions_vm(x, cx) for x in parts)
+        if not touches:
+            return ('len', n) if (isinstance(n, int) and not g.ifs and len(e.generators) == 1) else None
+        if n is None or g.ifs or len(e.generators) != 1:
             raise _Dyn()
-        tape, stack, cache = hc.params[:3]
-        st = {'ops': ops, 'tape': tape, 'stack': stack, 'fi': hc, 'depth': depth}
-        try:
-            self._block(hc.node.body, {}, c, st)
-        except _Return:
-            pass
+        for _ in range(min(n, MAX_UNROLL)):
+            for x in inner:
+                self.ev(x, st, cx)
+        return ('len', n)
 
-    def _stmt(self, s, env, c, st):
+    def _iter_len(self, it, st, cx):
+        if isinstance(it, ast.Call) and dotted(it.func) == 'range' and it.args:
+            vals = [self.ev(a, st, cx) for a in it.args]
+            if not all(isinstance(v, int) for v in vals):
+                return None
+            if len(vals) == 1:
+                return max(0, vals[0])
+            if len(vals) == 2:
+                return max(0, vals[1] - vals[0])
+            if len(vals) == 3 and vals[2]:
+                return len(range(*vals))
+            return None
+        v = self.ev(it, st, cx)
+        if isinstance(v, tuple) and v[0] == 'len' and isinstance(v[1], int):
+            return v[1]
+        if isinstance(v, tuple) and v[0] == 'dict':
+            return len(v[1])
+        return None
+
+    def _call(self, e: ast.Call, st: State, cx):
+        f = e.func
+        nm = dotted(f) or ''
+        # own stack
+        if isinstance(f, ast.Attribute) and self._is_own_stack(f.value, cx):
+            for a in e.args:
+                self.ev(a, st, cx)
+            for k in e.keywords:
+                self.ev(k.value, st, cx)
+            if f.attr == 'get':
+                st.get()
+            elif f.attr == 'put':
+                st.put()
+            elif f.attr == 'peek':
+                idx = self.ev(e.args[0], st.copy(), cx) if e.args else 0
+                st.peek((idx if isinstance(idx, int) else 0) + 1)
+            elif f.attr in ('list', 'size', 'empty', '__len__'):
+                pass
+            else:
+                raise _Dyn()
+            return None
+        # own stack's storage
+        if isinstance(f, ast.Attribute) and isinstance(f.value, ast.Attribute) and f.value.attr == 'deque' and \
+                self._is_own_stack(f.value.value, cx):
+            for a in e.args:
+                self.ev(a, st, cx)
+            if f.attr == 'pop' and not e.args:
+                st.get()
+            elif f.attr == 'append':
+                st.put()
+            elif f.attr in ('count', 'index', 'copy', '__len__'):
+                pass
+            elif f.attr in ('reverse', 'rotate'):
+                pass
+            else:
+                raise _Dyn()
+            return None
+        # own tape
+        if isinstance(f, ast.Attribute) and isinstance(f.value, ast.Name) and f.value.id == cx.tape:
+            if f.attr == 'read':
+                size = self.ev(e.args[0], st, cx) if e.args else None
+                v = st.next_operand()
+                return ('operand', v, size if isinstance(size, int) else None)
+            for a in e.args:
+                self.ev(a, st, cx)
+            return None
+        if nm in ('int.from_bytes', 'bytes_to_int') and e.args:
+            v = self.ev(e.args[0], st, cx)
+            for a in e.args[1:]:
+                self.ev(a, st, cx)
+            if isinstance(v, tuple) and v[0] == 'operand' and isinstance(v[1], int):
+                val = v[1]
+                signed = nm == 'bytes_to_int' or any(k.arg == 'signed' and isinstance(k.value, ast.Constant) and k.value.value
+                                                     for k in e.keywords)
+                size = v[2] if len(v) > 2 else None
+                if signed and isinstance(size, int) and size > 0 and val >= 1 << (8 * size - 1):
+                    val -= 1 << (8 * size)
+                return val
+            return None
+        if nm == 'len' and e.args:
+            v = self.ev(e.args[0], st, cx)
+            if isinstance(v, tuple) and v[0] == 'len':
+                return v[1]
+            if isinstance(v, tuple) and v[0] == 'dict':
+                return len(v[1])
+            return None
+        if nm in ('bool', 'int') and len(e.args) == 1:
+            v = self.ev(e.args[0], st, cx)
+            return v if isinstance(v, int) else None
+        if isinstance(f, ast.Name):
+            if f.id == 'run_tape':
+                raise _Dyn()
+            if f.id in self.guards:
+                if e.args:
+                    self._length_guard(e.args[0], st, cx)
+                c = self._truth(self.ev(e.args[0], st, cx)) if e.args else None
+                if c is False:
+                    raise _Die()
+                return None
+            if f.id in ('max', 'min') and e.args and not e.keywords:
+                vals = [self.ev(a, st, cx) for a in e.args]
+                if len(vals) >= 2 and all(isinstance(v, int) for v in vals):
+                    return max(vals) if f.id == 'max' else min(vals)
+                return None
+            if f.id == 'Tape' and e.args:
+                inner = e.args[0]
+                for k in e.keywords:
+                    self.ev(k.value, st, cx)
+                if isinstance(inner, ast.Constant) and isinstance(inner.value, bytes):
+                    return ('tape', tuple(inner.value))
+                if isinstance(inner, ast.Call) and isinstance(inner.func, ast.Attribute) and inner.func.attr == 'to_bytes':
+                    iv = self.ev(inner.func.value, st, cx)
+                    return ('tape', (iv if isinstance(iv, int) else None,))
+                v = self.ev(inner, st, cx)
+                if isinstance(v, tuple) and v[0] == 'operand':
+                    return ('tape', (v[1],))
+                return ('tape', (None,))
+            fr = self.w.resolve_call(cx.fi, e)
+            if fr is not None and fr.module == 'functions' and fr.name in self.w.handlers and len(e.args) >= 3:
+                # a handler call nested in an expression: only when it is the whole statement (see _stmt)
+                raise _Dyn()
+            if f.id in ('run_plugins', 'run_sig_extensions'):
+                for a in e.args:
+                    if not isinstance(a, ast.Name):
+                        self.ev(a, st, cx)
+                return None
+        # any other call: arguments are evaluated; handing the own stack to unknown code is dynamic
+        for a in e.args:
+            if self._is_own_stack(a, cx):
+                raise _Dyn()
+            self.ev(a, st, cx)
+        for k in e.keywords:
+            if self._is_own_stack(k.value, cx):
+                raise _Dyn()
+            self.ev(k.value, st, cx)
+        if isinstance(f, ast.Attribute):
+            self.ev(f.value, st, cx)
+        return None
+
+    def _length_guard(self, cond, st, cx, negate=False):
+        """A guard `len(stack.deque) >= n` / `> n` / `n <= len(stack)` with n known: surviving it needs n
+        (n + 1) items, whether or not they are then popped."""
+        if isinstance(cond, ast.UnaryOp) and isinstance(cond.op, ast.Not):
+            self._length_guard(cond.operand, st, cx, negate=not negate)
+            return
+        if isinstance(cond, ast.BoolOp) and ((isinstance(cond.op, ast.And) and not negate) or
+                                             (isinstance(cond.op, ast.Or) and negate)):
+            for v in cond.values:
+                self._length_guard(v, st, cx, negate=negate)
+            return
+        if not (isinstance(cond, ast.Compare) and len(cond.ops) == 1):
+            return
+        if negate:
+            inv = {ast.Lt: ast.GtE, ast.LtE: ast.Gt, ast.Gt: ast.LtE, ast.GtE: ast.Lt}
+            for k, v in inv.items():
+                if isinstance(cond.ops[0], k):
+                    cond = ast.Compare(left=cond.left, ops=[v()], comparators=cond.comparators)
+                    break
+            else:
+                return
+
+        def is_len(x):
+            if isinstance(x, ast.Call) and dotted(x.func) == 'len' and x.args:
+                a = x.args[0]
+                return self._is_own_stack(a, cx) or (isinstance(a, ast.Attribute) and a.attr == 'deque'
+                                                      and self._is_own_stack(a.value, cx))
+            return False
+        l, r, op = cond.left, cond.comparators[0], cond.ops[0]
+        if is_len(l) and isinstance(op, (ast.GtE, ast.Gt)):
+            n = self.ev(r, st.copy(), cx)
+            if isinstance(n, int):
+                st.peek(n + (1 if isinstance(op, ast.Gt) else 0))
+        elif is_len(r) and isinstance(op, (ast.LtE, ast.Lt)):
+            n = self.ev(l, st.copy(), cx)
+            if isinstance(n, int):
+                st.peek(n + (1 if isinstance(op, ast.Lt) else 0))
+
+    # ------------------------------------------------------------------ statements
+    def _handler_call(self, e, cx):
+        if isinstance(e, ast.Call) and isinstance(e.func, ast.Name):
+            fr = self.w.resolve_call(cx.fi, e)
+            if fr is not None and fr.module == 'functions' and fr.name in self.w.handlers and len(e.args) >= 3:
+                return self.w.handlers[fr.name]
+        return None
+
+    def _stmt(self, s, st: State, cx):
+        st = st.copy()
         if isinstance(s, ast.Expr):
             if isinstance(s.value, ast.Constant):
-                return
-            # guard helper: evaluate the condition's events, ignore the raising path
-            self._expr(s.value, env, c, st)
-            return
-        if isinstance(s, ast.Assign):
-            v = self._value(s.value, env, c, st)
-            for t in s.targets:
+                return [('fall', st)]
+            hc = self._handler_call(s.value, cx)
+            if hc is not None:
+                return self._inline_handler(hc, s.value, st, cx)
+            self.ev(s.value, st, cx)
+            return [('fall', st)]
+        if isinstance(s, (ast.Assign, ast.AnnAssign)):
+            value = s.value
+            targets = s.targets if isinstance(s, ast.Assign) else [s.target]
+            if value is None:
+                return [('fall', st)]
+            v = self.ev(value, st, cx)
+            for t in targets:
                 if isinstance(t, ast.Name):
-                    if v is None:
-                        env.pop(t.id, None)
-                    else:
-                        env[t.id] = v
-                elif isinstance(t, ast.Tuple):
+                    self._bind(t.id, v, st)
+                elif isinstance(t, (ast.Tuple, ast.List)):
                     for x in t.elts:
                         if isinstance(x, ast.Name):
-                            env.pop(x.id, None)
-            return
-        if isinstance(s, ast.AugAssign):
-            self._expr(s.value, env, c, st)
-            if isinstance(s.target, ast.Name):
-                a = env.get(s.target.id)
-                b = self._eval_int(s.value, env, _Counter(), st) if isinstance(s.value, ast.Constant) else None
-                if isinstance(a, int) and isinstance(b, int) and isinstance(s.op, ast.Add):
-                    env[s.target.id] = a + b
+                            st.env.pop(x.id, None)
+                        else:
+                            self._store_target(x, st, cx)
                 else:
-                    env.pop(s.target.id, None)
-            return
+                    self._store_target(t, st, cx)
+            return [('fall', st)]
+        if isinstance(s, ast.AugAssign):
+            v = self.ev(s.value, st, cx)
+            if isinstance(s.target, ast.Name):
+                a = st.env.get(s.target.id)
+                if isinstance(a, int) and isinstance(v, int) and isinstance(s.op, (ast.Add, ast.Sub)):
+                    st.env[s.target.id] = a + v if isinstance(s.op, ast.Add) else a - v
+                else:
+                    st.env.pop(s.target.id, None)
+            else:
+                self._store_target(s.target, st, cx)
+            return [('fall', st)]
         if isinstance(s, ast.If):
-            self._expr(s.test, env, c, st)
-            s0 = c.snapshot()
-            ops0 = list(st['ops'])
-            outs = []
-            for branch in (s.body, s.orelse):
-                c.restore(s0)
-                st['ops'][:] = ops0
-                e2 = dict(env)
-                try:
-                    self._block(branch, e2, c, st)
-                    outs.append((c.snapshot(), e2, list(st['ops']), False))
-                except _Return:
-                    outs.append((c.snapshot(), e2, list(st['ops']), True))
-                except _Raise:
-                    pass
-            if not outs:
-                raise _Raise()
-            ds = {o[0][0] for o in outs}
-            if len(ds) != 1:
-                raise _Dyn()
-            c.restore((outs[0][0][0], min(o[0][1] for o in outs)))
-            if all(o[3] for o in outs):
-                raise _Return()
-            if any(o[3] for o in outs):
-                # one branch returned with the same depth effect as the other falling through:
-                # the rest of the handler must then be effect-free; conservatively dynamic
-                rest_ok = True
-                if not rest_ok:
-                    raise _Dyn()
-                self._partial_return = True
-            live = [o for o in outs if not o[3]] or outs
-            env.clear()
-            env.update({k: v for k, v in live[0][1].items() if all(o[1].get(k) == v for o in live)})
-            st['ops'][:] = live[0][2]
-            if any(o[3] for o in outs) and not all(o[3] for o in outs):
-                # remember that a returning branch exists: later effects would differ
-                st.setdefault('returned_branch', []).append(c.snapshot())
-            return
+            t = self._truth(self.ev(s.test, st, cx))
+            if t is True:
+                return self._block(s.body, [st], cx)
+            if t is False:
+                return self._block(s.orelse, [st], cx)
+            a = self._block(s.body, [st.copy()], cx)
+            if not a:
+                # `if <cond>: raise ...` - surviving means the condition was false: a guard in if-form
+                nb = st.copy()
+                self._length_guard(s.test, nb, cx, negate=True)
+                return self._block(s.orelse, [nb], cx)
+            b = self._block(s.orelse, [st.copy()], cx)
+            if not b and s.orelse:
+                nb = st.copy()
+                self._length_guard(s.test, nb, cx)
+                return self._block(s.body, [nb], cx)
+            return a + b
         if isinstance(s, ast.For):
-            n = self._iter_len(s.iter, env, c, st)
-            if n is None:
-                # unknown trip count: the body must be stack-neutral and never dip
-                s0 = c.snapshot()
-                c2 = _Counter()
-                try:
-                    self._block(s.body, dict(env), c2, st)
-                except (_Return, _Raise):
-                    pass
-                if c2.d != 0 or c2.min < 0:
-                    raise _Dyn()
-                return
-            for _ in range(min(n, 300)):
-                try:
-                    self._block(s.body, env, c, st)
-                except _Break:
-                    break
-            return
+            return self._for(s, st, cx)
         if isinstance(s, ast.While):
-            c2 = _Counter()
-            try:
-                self._block(s.body, dict(env), c2, st)
-            except (_Return, _Raise):
-                pass
-            if c2.d != 0 or c2.min < 0:
-                raise _Dyn()
-            self._expr(s.test, env, c, st)
-            return
+            self.ev(s.test, st, cx)
+            return self._neutral_loop(s.body, st, cx, assigned=_assigned(s))
         if isinstance(s, ast.Try):
-            s0 = c.snapshot()
-            self._block(s.body, env, c, st)
-            a = c.snapshot()
-            for h in s.handlers:
-                # the handler runs instead of the rest of the try body after the raising call:
-                # approximate by requiring the same net effect as the full body
-                c.restore(s0)
-                # events of the try body up to the raising statement are unknown; assume the
-                # raising statement is the first one (verify before put)
-                c2 = _Counter()
-                c2.restore(s0)
-                try:
-                    self._block(h.body, dict(env), c2, st)
-                except (_Return, _Raise):
-                    pass
-                # compare net effect
-                # try body: stmt0 (raising) ; rest.  handler path = stmt0's pops + handler
-                cb = _Counter()
-                cb.restore(s0)
-                self._stmt(s.body[0], dict(env), cb, st) if s.body else None
-                diff_body = a[0] - cb.d
-                diff_handler = c2.d - s0[0]
-                if diff_body != diff_handler:
-                    raise _Dyn()
-            c.restore(a)
-            return
+            return self._try(s, st, cx)
         if isinstance(s, ast.Return):
             if s.value is not None:
-                self._expr(s.value, env, c, st)
-            raise _Return()
+                hc = self._handler_call(s.value, cx)
+                if hc is not None:
+                    return [('return', x) for k, x in self._inline_handler(hc, s.value, st, cx) if k == 'fall']
+                self.ev(s.value, st, cx)
+            return [('return', st)]
         if isinstance(s, ast.Raise):
-            raise _Raise()
+            raise _Die()
         if isinstance(s, ast.Break):
-            raise _Break()
-        if isinstance(s, (ast.Pass, ast.Continue, ast.Delete, ast.Assert, ast.AnnAssign)):
-            if isinstance(s, ast.AnnAssign) and s.value is not None:
-                self._expr(s.value, env, c, st)
-            return
+            return [('break', st)]
+        if isinstance(s, ast.Continue):
+            return [('continue', st)]
+        if isinstance(s, ast.Assert):
+            c = self._truth(self.ev(s.test, st, cx))
+            if c is False:
+                raise _Die()
+            return [('fall', st)]
+        if isinstance(s, (ast.Pass, ast.Global, ast.Nonlocal, ast.Import, ast.ImportFrom)):
+            return [('fall', st)]
+        if isinstance(s, ast.Delete):
+            for t in s.targets:
+                if isinstance(t, ast.Name):
+                    st.env.pop(t.id, None)
+                elif self._mentions_vm(t, cx) and not (isinstance(t, ast.Subscript) and isinstance(t.value, ast.Name)
+                                                       and t.value.id == cx.cache):
+                    raise _Dyn()
+            return [('fall', st)]
         raise _Dyn()
 
+    def _store_target(self, t, st, cx):
+        """Subscript / attribute store: evaluate the pieces; a store into the own stack's storage keeps depth."""
+        if isinstance(t, ast.Subscript):
+            if isinstance(t.value, ast.Attribute) and t.value.attr == 'deque' and self._is_own_stack(t.value.value, cx):
+                iv = self.ev(t.slice, st, cx) if not isinstance(t.slice, ast.Slice) else None
+                if isinstance(iv, int) and iv < 0:
+                    st.peek(-iv)
+                return
+            self.ev(t.value, st, cx)
+            if not isinstance(t.slice, ast.Slice):
+                self.ev(t.slice, st, cx)
+        elif isinstance(t, ast.Attribute):
+            if self._is_own_stack(t.value, cx):
+                raise _Dyn()
+            self.ev(t.value, st, cx)
 
-class _Break(Exception):
-    pass
+    def _inline_handler(self, hc, call, st, cx):
+        ta = call.args[0]
+        sa = call.args[1]
+        if not self._is_own_stack(sa, cx):
+            # runs on another stack: no effect on ours (its tape operand may still consume ours)
+            if isinstance(ta, ast.Name) and ta.id == cx.tape:
+                raise _Dyn()
+            self.ev(ta, st, cx)
+            return [('fall', st)]
+        if isinstance(ta, ast.Name) and ta.id == cx.tape:
+            sub = State(st.d, st.mn, {}, st.ops)
+            outs = self._run_handler(hc, sub, cx.depth + 1)
+            res = []
+            for k, s2 in outs:
+                if k in ('fall', 'return'):
+                    n = st.copy()
+                    n.d, n.mn, n.ops = s2.d, s2.mn, s2.ops
+                    res.append(('fall', n))
+            return res
+        tv = self.ev(ta, st, cx)
+        ops = tuple(tv[1]) if isinstance(tv, tuple) and tv[0] == 'tape' else (None,)
+        sub = State(st.d, st.mn, {}, ops)
+        outs = self._run_handler(hc, sub, cx.depth + 1)
+        res = []
+        for k, s2 in outs:
+            if k in ('fall', 'return'):
+                n = st.copy()
+                n.d, n.mn = s2.d, s2.mn
+                res.append(('fall', n))
+        return res
+
+    def _for(self, s: ast.For, st: State, cx):
+        it = s.iter
+        bindings = None
+        if isinstance(it, ast.Call) and isinstance(it.func, ast.Attribute) and it.func.attr in ('items', 'keys', 'values') \
+                and not it.args:
+            v = self.ev(it.func.value, st, cx)
+            if isinstance(v, tuple) and v[0] == 'dict':
+                if it.func.attr == 'items':
+                    bindings = [('pair', k, val) for k, val in v[1]]
+                elif it.func.attr == 'keys':
+                    bindings = [('one', k if isinstance(k, int) else None) for k, _ in v[1]]
+                else:
+                    bindings = [('one', val) for _, val in v[1]]
+        elif isinstance(it, ast.Call) and dotted(it.func) == 'range':
+            vals = [self.ev(a, st, cx) for a in it.args]
+            if vals and all(isinstance(v, int) for v in vals):
+                try:
+                    r = range(*vals)
+                    if len(r) <= MAX_UNROLL:
+                        bindings = [('one', i) for i in r]
+                    else:
+                        bindings = [('one', None)] * MAX_UNROLL
+                except (TypeError, ValueError):
+                    bindings = None
+        else:
+            n = self._iter_len(it, st, cx)
+            if isinstance(n, int):
+                bindings = [('one', None)] * min(n, MAX_UNROLL)
+        if bindings is None:
+            return self._neutral_loop(s.body, st, cx, assigned=_assigned(s), orelse=s.orelse)
+        outs = []
+        live = [st]
+        for b in bindings:
+            if not live:
+                break
+            for x in live:
+                if isinstance(s.target, ast.Name):
+                    self._bind(s.target.id, b[1] if b[0] == 'one' else None, x)
+                elif isinstance(s.target, ast.Tuple) and b[0] == 'pair' and len(s.target.elts) == 2:
+                    for t, v in zip(s.target.elts, (b[1], b[2])):
+                        if isinstance(t, ast.Name):
+                            self._bind(t.id, v if isinstance(v, int) else None, x)
+                else:
+                    for t in ast.walk(s.target):
+                        if isinstance(t, ast.Name):
+                            x.env.pop(t.id, None)
+            res = self._block(s.body, live, cx)
+            live = []
+            for k, s2 in res:
+                if k in ('fall', 'continue'):
+                    live.append(s2)
+                elif k == 'break':
+                    outs.append(('fall', s2))
+                else:
+                    outs.append((k, s2))
+            live = _dedup(live)
+        if s.orelse and live:
+            outs += self._block(s.orelse, live, cx)
+        else:
+            outs += [('fall', x) for x in live]
+        return outs
+
+    def _neutral_loop(self, body, st, cx, assigned, orelse=None):
+        """Unknown trip count: every way through the body must leave the depth where it was and never
+        dip below it; then the loop as a whole is neutral."""
+        probe = State(0, 0, {k: v for k, v in st.env.items() if k not in assigned}, st.ops)
+        res = self._block(body, [probe], cx)
+        outs = []
+        for k, s2 in res:
+            if s2.d != 0 or s2.mn < 0 or s2.ops != st.ops:
+                raise _Dyn()
+            if k == 'return':
+                r = st.copy()
+                outs.append(('return', r))
+        after = st.copy()
+        for nm in assigned:
+            after.env.pop(nm, None)
+        if orelse:
+            outs += self._block(orelse, [after], cx)
+        else:
+            outs.append(('fall', after))
+        return outs
+
+    def _try(self, s: ast.Try, st: State, cx):
+        # states from which a handler may be entered: before each statement of the try body that calls anything
+        entries = []
+        outs = []
+        cur = [st]
+        for b in s.body:
+            if any(isinstance(n, (ast.Call, ast.Subscript, ast.Raise)) for n in ast.walk(b)):
+                entries += [x.copy() for x in cur]
+            nxt = []
+            for x in cur:
+                try:
+                    for k, s2 in self._stmt(b, x, cx):
+                        if k == 'fall':
+                            nxt.append(s2)
+                        else:
+                            outs.append((k, s2))
+                except _Die:
+                    pass
+            cur = _dedup(nxt)
+            if not cur:
+                break
+        if s.orelse and cur:
+            res = self._block(s.orelse, cur, cx)
+            cur = [x for k, x in res if k == 'fall']
+            outs += [(k, x) for k, x in res if k != 'fall']
+        for h in s.handlers:
+            if not entries:
+                continue
+            ent = []
+            for x in _dedup(entries):
+                y = x.copy()
+                if h.name:
+                    y.env.pop(h.name, None)
+                ent.append(y)
+            res = self._block(h.body, ent, cx)
+            cur += [x for k, x in res if k == 'fall']
+            outs += [(k, x) for k, x in res if k != 'fall']
+        cur = _dedup(cur)
+        if s.finalbody:
+            res = self._block(s.finalbody, cur, cx)
+            return outs + res
+        return outs + [('fall', x) for x in cur]
+
+
+def _assigned(loop) -> set[str]:
+    out = set()
+    for n in ast.walk(loop):
+        if isinstance(n, ast.Name) and isinstance(n.ctx, (ast.Store, ast.Del)):
+            out.add(n.id)
+    return out
